@@ -23,6 +23,7 @@ func scenarios() []*sess.Scenario {
 		// gets its own, typed, result
 		{Name: "S6-vector-results-re-sent-after-salt-rejection", Salt: 77, Opt: all, RotateBefore: map[int]int64{1: 88}, Callers: [][]sess.Call{{{Tag: 1, Kind: rpcsrv.KVecInt}}, {{Tag: 2, Kind: rpcsrv.KVecObj}}}},
 		// a big answer (48 KiB of Vector<int>), plain or gzip-packed: it spans several reads of the unpacker
+		{Name: "S8-highly-redundant-vector-result-plain-or-gzip", Salt: 77, Opt: all, Callers: [][]sess.Call{{{Tag: 1, Kind: rpcsrv.KVecIntSame}}, {{Tag: 2, Kind: rpcsrv.KObj}}}},
 		{Name: "S7-big-vector-result-plain-or-gzip", Salt: 77, Opt: all, Callers: [][]sess.Call{{{Tag: 1, Kind: rpcsrv.KVecIntBig}}, {{Tag: 2, Kind: rpcsrv.KObj}}}},
 		// one frame - a request or an acknowledgement, whichever the explorer picks - cannot be written (the write
 		// fails as a whole and the connection stays usable): the call whose request it was gets the error, every
